@@ -142,3 +142,92 @@ func VxC08StateAtBlock() {
 		check(x.r, x.n, "reader-unaffected-by-a-later-block")
 	}
 }
+
+// C08 after a reorg: the answers describe the chain the node holds NOW. Block 0 deploys A with a nonce
+// and a slot value; block 1 changes nonce, slot and A's class; block 1 is reverted and replaced by a block
+// that only writes the slot, and a further block is stored on top. Reads at block 1 (by number and by hash
+// of the replacement) must answer the nonce and class of block 0 and the replacement's slot value - never
+// a value of the block that was reverted - and reads at the head agree with the head state.
+func VxC08StateAtBlockAfterReorg() {
+	vx.Bound("both state backends; block 0 deploys A (nonce, slot, class); block 1 writes nonce, slot and replaces the class; revert of block 1; replacement block 1' writes the slot only; block 2' writes the slot; all written values symbolic and non-zero; reads at blocks 0, 1, 2 by number and by hash")
+	vx.CollisionFree()
+	newState := vx.Choice("backend", 2) == 1
+	mem := memory.New()
+	inner := core.NewAggregatedFilter(0)
+	rf := core.NewRunningEventFilterHot(mem, &inner, 0)
+	b := New(mem, rf, &networks.Sepolia, &pruner.RetentionFloor{}, newState)
+	a := felt.NewFromUint64[felt.Felt](0x1000)
+	slot := felt.NewFromUint64[felt.Felt](0x20)
+	nz := func(name string) *felt.Felt {
+		v := vxSlotValue(name)
+		vx.Assume(!v.IsZero())
+		return v
+	}
+	n0, n1 := nz("nonce0"), nz("nonce1")
+	v0, v1, v1r, v2r := nz("v0"), nz("v1"), nz("v1r"), nz("v2r")
+	classA, classA2 := felt.NewFromUint64[felt.Felt](0xAA), felt.NewFromUint64[felt.Felt](0xAB)
+	h0, h1, h1r, h2r := felt.NewFromUint64[felt.Felt](0x100), felt.NewFromUint64[felt.Felt](0x101), felt.NewFromUint64[felt.Felt](0x201), felt.NewFromUint64[felt.Felt](0x202)
+
+	d0 := core.EmptyStateDiff()
+	d0.DeployedContracts[*a] = classA
+	d0.Nonces[*a] = n0
+	d0.StorageDiffs[*a] = map[felt.Felt]*felt.Felt{*slot: v0}
+	d1 := core.EmptyStateDiff()
+	d1.Nonces[*a] = n1
+	d1.ReplacedClasses[*a] = classA2
+	d1.StorageDiffs[*a] = map[felt.Felt]*felt.Felt{*slot: v1}
+	d1r := core.EmptyStateDiff()
+	d1r.StorageDiffs[*a] = map[felt.Felt]*felt.Felt{*slot: v1r}
+	d2r := core.EmptyStateDiff()
+	d2r.StorageDiffs[*a] = map[felt.Felt]*felt.Felt{*slot: v2r}
+
+	put := func(sh *vxShadow, n uint64, hash, parent *felt.Felt, diff *core.StateDiff, store bool) {
+		oldR, newR := sh.apply(n, diff)
+		if !store {
+			return
+		}
+		blk := &core.Block{Header: &core.Header{Number: n, Hash: hash, ParentHash: parent, GlobalStateRoot: &newR, ProtocolVersion: "0.13.2"}}
+		su := &core.StateUpdate{BlockHash: hash, OldRoot: &oldR, NewRoot: &newR, StateDiff: diff}
+		vx.Assert(b.Store(blk, &core.BlockCommitments{}, su, nil) == nil, "block-stores")
+	}
+	// first fork
+	shA := vxNewShadow(newState)
+	put(shA, 0, h0, &felt.Zero, &d0, true)
+	put(shA, 1, h1, h0, &d1, true)
+	vx.Assert(b.RevertHead() == nil, "revert-ok")
+	// second fork: roots from a fresh shadow that never saw block 1
+	shB := vxNewShadow(newState)
+	put(shB, 0, h0, &felt.Zero, &d0, false)
+	put(shB, 1, h1r, h0, &d1r, true)
+	put(shB, 2, h2r, h1r, &d2r, true)
+
+	type want struct {
+		nonce, val, class *felt.Felt
+	}
+	wants := []want{{n0, v0, classA}, {n0, v1r, classA}, {n0, v2r, classA}}
+	hashes := []*felt.Felt{h0, h1r, h2r}
+	for n := 0; n <= 2; n++ {
+		for byHash := 0; byHash < 2; byHash++ {
+			var r core.StateReader
+			var err error
+			if byHash == 1 {
+				r, _, err = b.StateAtBlockHash(hashes[n])
+			} else {
+				r, _, err = b.StateAtBlockNumber(uint64(n))
+			}
+			vx.Assert(err == nil, "state-opens")
+			if err != nil {
+				continue
+			}
+			gn, e1 := r.ContractNonce(a)
+			gv, e2 := r.ContractStorage(a, slot)
+			gc, e3 := r.ContractClassHash(a)
+			vx.Assert(e1 == nil && e2 == nil && e3 == nil, "reads-ok")
+			vx.Assert(gn.Equal(wants[n].nonce), "nonce-is-that-of-the-chain-held-now")
+			vx.Assert(gv.Equal(wants[n].val), "slot-is-that-of-the-chain-held-now")
+			vx.Assert(gc.Equal(wants[n].class), "class-hash-is-that-of-the-chain-held-now")
+		}
+	}
+	_, _, gone := b.StateAtBlockHash(h1)
+	vx.Assert(gone != nil, "reverted-block-is-not-addressable-by-hash")
+}
